@@ -12,6 +12,18 @@ Definition Inv (pw : bool) (s : st) (g : ghost) : Prop := InvK s /\ (pw = true -
 Definition Inv_all (pw : bool) (s : st) (g : ghost) (es : list ev) : Prop :=
   forall n, Inv pw (run_evs s (firstn n es)) (ghost_evs s g (firstn n es)).
 
+(* what is claimed at EVERY crash position: the kill invariant, and for power loss that the recoverable
+   pages are the ghost view - with the whole of InvP wherever the current segment is synced (it is not,
+   only between the truncation of Database::checkpoint() and the sync that follows it) *)
+Definition InvPos (pw : bool) (s : st) (g : ghost) : Prop :=
+  InvK s /\ (pw = true -> (forall k, ~ In k (g_unl g) -> recP s k = g_view g k)
+                          /\ (cur_du s = cur_fl s -> InvP s g)).
+Definition Pos_all (pw : bool) (s : st) (g : ghost) (es : list ev) : Prop :=
+  forall n, InvPos pw (run_evs s (firstn n es)) (ghost_evs s g (firstn n es)).
+
+Lemma Inv_InvPos : forall pw s g, Inv pw s g -> InvPos pw s g.
+Proof. intros pw s g [HK HP]. split; [exact HK |]. intros E. split; [exact (p1 s g (HP E)) | intros _; exact (HP E)]. Qed.
+
 Lemma Inv_all_nil : forall pw s g, Inv pw s g -> Inv_all pw s g [].
 Proof. intros pw s g H n. destruct n; exact H. Qed.
 
@@ -46,6 +58,23 @@ Qed.
 
 Lemma Inv_all_one : forall pw s g e, Inv pw s g -> scK s e -> (pw = true -> scP s g e) -> Inv_all pw s g [e].
 Proof. intros. apply Inv_all_cons; [assumption |]. apply Inv_all_nil. apply Inv_step; assumption. Qed.
+
+Lemma Inv_all_Pos : forall pw s g es, Inv_all pw s g es -> Pos_all pw s g es.
+Proof. intros pw s g es H n. apply Inv_InvPos. exact (H n). Qed.
+
+Lemma Pos_all_app : forall pw s g a b,
+  Pos_all pw s g a -> Pos_all pw (run_evs s a) (ghost_evs s g a) b -> Pos_all pw s g (a ++ b).
+Proof.
+  intros pw s g a b HA HB n. rewrite firstn_app, run_evs_app, ghost_evs_app.
+  destruct (Nat.le_gt_cases (length a) n) as [L | L].
+  - rewrite (firstn_all2 a) by exact L. exact (HB (n - length a)%nat).
+  - replace (n - length a)%nat with O by lia. cbn [firstn]. exact (HA n).
+Qed.
+Lemma Pos_all_cons : forall pw s g e r,
+  InvPos pw s g -> Pos_all pw (apply_ev s e) (ghost_ev s g e) r -> Pos_all pw s g (e :: r).
+Proof. intros pw s g e r H HA n. destruct n as [| n]; [exact H | exact (HA n)]. Qed.
+Lemma Pos_all_nil : forall pw s g, InvPos pw s g -> Pos_all pw s g [].
+Proof. intros pw s g H n. destruct n; exact H. Qed.
 
 (* ------------------------------------------------------------------ fields that a list of events leaves alone *)
 Lemma run_pres : forall {A} (pi : st -> A) es,
@@ -473,35 +502,113 @@ Lemma Inv_all_step : forall pw s g e r,
   Inv_all pw s g (e :: r).
 Proof. intros. apply Inv_all_cons; [assumption |]. apply H2. apply Inv_step; assumption. Qed.
 
-Lemma op_api : forall s g ord, Inv false s g -> Shape false s -> wf_op s (OApiCkpt ord) = true ->
-  Inv_all false s g (events s (OApiCkpt ord)) /\ Shape false (step s (OApiCkpt ord)).
+(* after msyncing the files of ts: their pages are durable and in the view *)
+Lemma msync_done : forall ts s g k,
+  (In (fst k) ts \/ (dfl s k = vol s k /\ g_view g k = vol s k)) -> mem (fst k) (files s) = true ->
+  dfl (run_evs s (map EMsync ts)) k = vol s k /\ g_view (ghost_evs s g (map EMsync ts)) k = vol s k.
 Proof.
-  intros s g ord HI [Hb [Hcf [Hcd [Htx Hsy]]]] WF. cbn [wf_op] in WF. apply andb_true_iff in WF. destruct WF as [W1 W2].
+  induction ts as [| t r IH]; intros s g k H F; cbn [map run_evs fold_left ghost_evs].
+  - destruct H as [[] | H]. exact H.
+  - fold (run_evs (apply_ev s (EMsync t)) (map EMsync r)).
+    assert (V : vol (apply_ev s (EMsync t)) = vol s) by (cbn [apply_ev]; destruct (mem t (files s)); reflexivity).
+    assert (FL : files (apply_ev s (EMsync t)) = files s) by (cbn [apply_ev]; destruct (mem t (files s)); reflexivity).
+    rewrite <- V. apply IH; [| rewrite FL; exact F].
+    destruct (Z.eq_dec (fst k) t) as [E | E].
+    + right. subst t. cbn [apply_ev ghost_ev]. rewrite F. unfold dfl. sproj. rewrite mem_add_z, Z.eqb_refl. cbn [orb]. split; reflexivity.
+    + destruct H as [[H | H] | H]; [congruence | left; exact H |].
+      right. cbn [apply_ev ghost_ev]. destruct (mem t (files s)); [| exact H].
+      unfold dfl in *. sproj. rewrite mem_add_z. apply Z.eqb_neq in E. rewrite E. cbn [orb]. exact H.
+Qed.
+
+Lemma op_api : forall pw s g ord, Inv pw s g -> Shape pw s -> wf_op s (OApiCkpt ord) = true ->
+  Pos_all pw s g (events s (OApiCkpt ord))
+  /\ Inv pw (step s (OApiCkpt ord)) (ghost_evs s g (events s (OApiCkpt ord)))
+  /\ Shape pw (step s (OApiCkpt ord)).
+Proof.
+  intros pw s g ord HI [Hb [Hcf [Hcd [Htx Hsy]]]] WF. cbn [wf_op] in WF.
+  apply andb_true_iff in WF. destruct WF as [WF W3]. apply andb_true_iff in WF. destruct WF as [W1 W2].
   assert (Hd : dirty s = []) by (destruct (dirty s); [reflexivity | discriminate]).
   unfold step. cbn [events]. rewrite Hd, Hb. cbn [key_tables map tables_of flat_map app]. rewrite app_nil_r.
-  assert (E1 : Inv_all false s g [EAck]) by (apply Inv_all_one; [exact HI | exact I | discriminate]).
-  assert (S1 : Shape false (run_evs s [EAck])) by (cbn; unfold Shape; repeat split; assumption).
-  destruct (ever_dirty s); [| split; [exact E1 | exact S1]].
-  destruct (cur_fl s) eqn:EC; cbn [app]; [split; [exact E1 | exact S1] |].
+  assert (TRIV : Pos_all pw s g [EAck] /\ Inv pw (run_evs s [EAck]) (ghost_evs s g [EAck]) /\ Shape pw (run_evs s [EAck])).
+  { split; [apply Inv_all_Pos; apply Inv_all_one; [exact HI | exact I | intros; exact I] |].
+    split; [cbn; exact HI | cbn; unfold Shape; repeat split; assumption]. }
+  destruct (ever_dirty s); [| exact TRIV].
+  destruct (cur_fl s) as [| f0 fr] eqn:EC; cbn [app]; [exact TRIV |]. clear TRIV.
   set (M := map EMsync ord).
-  assert (IM : Inv_all false s g M) by (apply msync_phase; [exact HI | exact Hb | exact Hd | discriminate]).
+  assert (IM : Inv_all pw s g M) by (apply msync_phase; [exact HI | exact Hb | exact Hd | intros E; rewrite EC; exact (Hsy E)]).
   set (s1 := run_evs s M). set (g1 := ghost_evs s g M).
-  assert (I1 : Inv false s1 g1) by (apply Inv_all_end; exact IM).
-  split.
-  - rewrite <- app_assoc. apply Inv_all_app; [exact IM |]. cbn [app].
-    apply Inv_all_step; [exact I1 | exact I | discriminate | clear I1; intros I1].
-    apply Inv_all_step; [exact I1 | exact I | discriminate | clear I1; intros I1].
-    apply Inv_all_step; [exact I1 | exact I | discriminate | clear I1; intros I1].
-    apply Inv_all_one; [exact I1 | exact I | discriminate].
+  assert (I1 : Inv pw s1 g1) by (apply Inv_all_end; exact IM).
+  assert (PM : forall {A} (pi : st -> A), (forall s t, pi (apply_ev s (EMsync t)) = pi s) -> pi s1 = pi s).
+  { intros A pi H. subst s1 M. apply run_pres. intros e He. apply in_map_iff in He. destruct He as [x [<- _]]. intros. apply H. }
+  assert (MS : forall {A} (pi : st -> A) s t, (forall s f, pi (set_dur s (fun k => if fst k =? f then vol s k else dur s k) (add_z f (dfiles s))) = pi s) -> pi (apply_ev s (EMsync t)) = pi s).
+  { intros A pi s0 t0 H. cbn [apply_ev]. destruct (mem t0 (files s0)) eqn:E; [apply H | reflexivity]. }
+  assert (B1 : buf s1 = []) by (rewrite (PM _ buf); [exact Hb | intros; apply MS; intros; reflexivity]).
+  assert (D1 : dirty s1 = []) by (rewrite (PM _ dirty); [exact Hd | intros; apply MS; intros; reflexivity]).
+  assert (CF1 : cur_fl s1 = f0 :: fr) by (rewrite (PM _ cur_fl); [exact EC | intros; apply MS; intros; reflexivity]).
+  assert (CD1 : cur_du s1 = cur_du s) by (apply PM; intros; apply MS; intros; reflexivity).
+  assert (CL1 : closed_fl s1 = []) by (rewrite (PM _ closed_fl); [exact Hcf | intros; apply MS; intros; reflexivity]).
+  assert (CM1 : closed_du s1 = []) by (rewrite (PM _ closed_du); [exact Hcd | intros; apply MS; intros; reflexivity]).
+  assert (TX1 : in_txn s1 = in_txn s) by (apply PM; intros; apply MS; intros; reflexivity).
+  assert (V1 : vol s1 = vol s) by (apply PM; intros; apply MS; intros; reflexivity).
+  assert (FL1 : files s1 = files s) by (apply PM; intros; apply MS; intros; reflexivity).
+  destruct I1 as [K1 P1].
+  (* the four states of the tail *)
+  set (s2 := apply_ev s1 ETrunc). set (s3 := apply_ev s2 EFlush). set (s4 := apply_ev s3 ESync).
+  assert (K2 : InvK s2) by (apply stepK; [exact K1 | exact I]).
+  assert (K3 : InvK s3) by (apply stepK; [exact K2 | exact I]).
+  assert (K4 : InvK s4) by (apply stepK; [exact K3 | exact I]).
+  assert (R2 : forall k, recP s2 k = recP s1 k).
+  { intros k. rewrite !recP_unfold. subst s2. cbn [apply_ev]. sproj. rewrite CM1. reflexivity. }
+  assert (R3 : forall k, recP s3 k = recP s1 k).
+  { intros k. rewrite <- R2, !recP_unfold. subst s3 s2. cbn [apply_ev]. sproj. reflexivity. }
+  set (g4 := ghost_ev s3 g1 ESync).
+  assert (POS2 : InvPos pw s2 g1).
+  { split; [exact K2 |]. intros E. split.
+    - intros k Hk. rewrite R2. exact (p1 _ _ (P1 E) k Hk).
+    - intros C. exfalso. subst s2. cbn [apply_ev] in C. sproj. rewrite CD1, (Hsy E) in C. discriminate. }
+  assert (POS3 : InvPos pw s3 g1).
+  { split; [exact K3 |]. intros E. split.
+    - intros k Hk. rewrite R3. exact (p1 _ _ (P1 E) k Hk).
+    - intros C. exfalso. subst s3 s2. cbn [apply_ev] in C. sproj. cbn [app] in C. rewrite CD1, (Hsy E) in C. discriminate. }
+  assert (I4 : Inv pw s4 g4).
+  { split; [exact K4 |]. intros E. specialize (P1 E). specialize (Hsy E).
+    assert (DF : forall k, ~ In k (g_unl g1) -> dfl s1 k = vol s1 k).
+    { intros k Hk.
+      assert (VW : g_view g1 k = vol s1 k).
+      { apply (p2 _ _ P1 k Hk).
+        - rewrite D1. intros [].
+        - unfold pendf. rewrite CD1, Hsy, CF1. rewrite skipn_all. reflexivity.
+        - rewrite B1. reflexivity. }
+      pose proof (p1 _ _ P1 k Hk) as R. rewrite recP_unfold in R. unfold dfl.
+      destruct (mem (fst k) (dfiles s1)) eqn:MD; [| rewrite <- VW; exact R].
+      rewrite CM1 in R. cbn [app] in R. destruct (lastk (cur_du s1) k) eqn:L; [| rewrite <- VW; exact R].
+      (* the page has a frame: its table is open, hence msynced *)
+      assert (Kin : In k (map fst (f0 :: fr))) by (rewrite <- Hsy, <- CD1; eapply lastk_some_in; exact L).
+      assert (MF : mem (fst k) (files s) = true).
+      { destruct HI as [_ HP]. specialize (HP E). apply (p6 _ _ HP). apply (p5 _ _ HP). right.
+        unfold wfl. rewrite Hcf, EC. apply in_map_fst_app. left. apply in_map_fst_app. right. exact Kin. }
+      assert (IO : In (fst k) ord).
+      { rewrite forallb_forall in W3. apply mem_In. apply W3. apply frame_tables_in; assumption. }
+      destruct (msync_done ord s g k (or_introl IO) MF) as [X _]. fold M s1 in X. unfold dfl in X. rewrite MD in X.
+      rewrite X, V1. reflexivity. }
+    subst g4. constructor.
+    - subst s4 s3 s2. cbn [apply_ev]. sproj. reflexivity.
+    - subst s4 s3 s2. cbn [apply_ev]. unfold pendf. sproj. reflexivity.
+    - intros k Hk. cbn [ghost_ev g_view g_unl] in *. rewrite recP_unfold. subst s4 s3 s2. cbn [apply_ev]. sproj. cbn [app lastk].
+      specialize (DF k Hk). unfold dfl in DF. exact DF.
+    - intros k _ _ _ _. subst s4 s3 s2. cbn [ghost_ev g_view apply_ev]. sproj. reflexivity.
+    - intros k [H | H]; subst s4 s3 s2; cbn [apply_ev] in H; unfold wfl in H; sproj; cbn [app map] in H; [rewrite D1 in H |]; destruct H.
+    - intros f Hf. subst s4 s3 s2. cbn [apply_ev] in *. sproj. apply (p6 _ _ P1). exact Hf. }
+  split; [| split].
+  - rewrite <- app_assoc. apply Pos_all_app; [apply Inv_all_Pos; exact IM |]. fold s1 g1. cbn [app].
+    apply Pos_all_cons; [apply Inv_InvPos; split; assumption |].
+    apply Pos_all_cons; [exact POS2 |].
+    apply Pos_all_cons; [exact POS3 |].
+    apply Pos_all_cons; [apply Inv_InvPos; exact I4 |].
+    apply Pos_all_nil. apply Inv_InvPos. exact I4.
+  - rewrite <- app_assoc, run_evs_app, ghost_evs_app. fold M s1 g1. cbn [app run_evs fold_left ghost_evs]. exact I4.
   - rewrite <- app_assoc, run_evs_app. fold M s1. cbn [app run_evs fold_left apply_ev].
-    unfold Shape. sproj.
-    assert (TX : in_txn s1 = in_txn s).
-    { subst s1 M. apply run_pres. intros e He. apply in_map_iff in He. destruct He as [x [<- _]]. intros.
-      cbn [apply_ev]. destruct (mem x (files s0)); reflexivity. }
-    assert (DT : dirty s1 = dirty s).
-    { subst s1 M. apply run_pres. intros e He. apply in_map_iff in He. destruct He as [x [<- _]]. intros.
-      cbn [apply_ev]. destruct (mem x (files s0)); reflexivity. }
-    repeat split; try reflexivity; try discriminate. rewrite TX, DT. exact Htx.
+    unfold Shape. sproj. repeat split; try reflexivity. rewrite TX1, D1. intros _. reflexivity.
 Qed.
 
 Lemma op_reopen : forall pw s g ord1 ord2, Inv pw s g -> Shape pw s -> wf_op s (OReopen ord1 ord2) = true ->
@@ -606,15 +713,19 @@ Proof.
 Qed.
 
 Lemma op_inv : forall pw s g o,
-  Inv pw s g -> Shape pw s -> wf_op s o = true -> (pw = true -> is_api_ckpt o = false) ->
-  Inv_all pw s g (events s o) /\ Shape pw (step s o).
+  Inv pw s g -> Shape pw s -> wf_op s o = true ->
+  Pos_all pw s g (events s o) /\ Inv pw (step s o) (ghost_evs s g (events s o)) /\ Shape pw (step s o).
 Proof.
-  intros pw s g o HI HS WF NA. destruct o.
-  - apply op_create; assumption.
-  - apply op_dml; assumption.
-  - apply op_begin; assumption.
-  - apply op_commit; assumption.
-  - apply op_ckpt; assumption.
-  - destruct pw; [specialize (NA eq_refl); discriminate |]. apply op_api; assumption.
-  - apply op_reopen; assumption.
+  intros pw s g o HI HS WF.
+  assert (L : Inv_all pw s g (events s o) /\ Shape pw (step s o) ->
+              Pos_all pw s g (events s o) /\ Inv pw (step s o) (ghost_evs s g (events s o)) /\ Shape pw (step s o)).
+  { intros [A B]. split; [apply Inv_all_Pos; exact A |]. split; [apply Inv_all_end; exact A | exact B]. }
+  destruct o.
+  - apply L. apply op_create; assumption.
+  - apply L. apply op_dml; assumption.
+  - apply L. apply op_begin; assumption.
+  - apply L. apply op_commit; assumption.
+  - apply L. apply op_ckpt; assumption.
+  - apply op_api; assumption.
+  - apply L. apply op_reopen; assumption.
 Qed.
